@@ -126,7 +126,7 @@ MODEL = dict(
             invariants=["NoViolation"], expect="violation"),
     ],
     quick=dict(sample=3000, drive_runs=240, drive_len=40),
-    thorough=dict(sample=40000, drive_runs=4000, drive_len=60),
+    thorough=dict(sample=30000, drive_runs=3000, drive_len=60),
     need=[("mint_seq", "ok"), ("mint_id", "ok"), ("batch", "ok"), ("batch", "fail"),
           ("transfer", "ok"), ("transfer", "fail"), ("transfer_from", "ok"), ("transfer_from", "fail"),
           ("burn", "ok"), ("burn", "fail"), ("burn_from", "ok"), ("burn_from", "fail"),
